@@ -81,6 +81,9 @@ pub struct FWorld<M: Machine> {
     pub w: World<M>,
     pub tw: World<M::Twin>,
     pub has_twin: bool,
+    /// the run belongs to the C09 check: a rejected delivery that changes the state is reported
+    /// as what it is for C09 - a history whose result differs from the batch over the accepted records
+    pub c09_keyed: bool,
 }
 
 fn is_ops<M: Machine>() -> bool {
@@ -111,7 +114,7 @@ pub fn exec_probe<M: Machine>(tr: &Trace, stats: &mut Stats, known: &BTreeSet<St
     let tapes = [tr.tapes[0].materialize(), tr.tapes[1].materialize()];
     let has_twin = matches!(M::TRANSFORM, Transform::Ln | Transform::Recip);
     let ttapes = if has_twin { [tapes[0].iter().map(|&b| M::twin_record(b)).collect(), Vec::new()] } else { [Vec::new(), Vec::new()] };
-    let mut fw = FWorld::<M> { w: World::new(tapes), tw: World::new(ttapes), has_twin };
+    let mut fw = FWorld::<M> { w: World::new(tapes), tw: World::new(ttapes), has_twin, c09_keyed: tr.property == "C09" };
     let mut reach = Reach::default();
     let mut dg = Digest::new();
     let mut fired: Vec<(String, u64)> = Vec::new();
@@ -198,6 +201,11 @@ pub fn exec_probe<M: Machine>(tr: &Trace, stats: &mut Stats, known: &BTreeSet<St
                 let info = fw.w.step(ev);
                 if has_twin {
                     fw.tw.step(ev);
+                }
+                if let Some(Out::Panic(p)) = &info.outcome {
+                    // merging partial states is total whatever they have absorbed (a state that took
+                    // a NaN is still a state; the error belongs to the interval computation)
+                    record!(Violation::new("C11", &format!("{}/merge-of-partial-states/panic", M::name()), 0, format!("{:?}: panicked: {}", ev, p)));
                 }
                 for &t in &info.touched {
                     if let Some(v) = count_check::<M>(&fw, t) {
@@ -449,7 +457,7 @@ fn deliver_checked<M: Machine>(fw: &mut FWorld<M>, dst: u16, stream: usize, styl
             actual_accepted = [Vec::new(), Vec::new()];
         } else {
             viol.push(Violation::new(
-                pid_reject,
+                if fw.c09_keyed { "C09" } else { pid_reject },
                 &format!("{name}/rejected-delivery-changed-the-state"),
                 dst,
                 format!("{ctx}: after the rejected delivery the state is {got_fp}; a clone of the pre-state fed exactly the {} accepted record(s) is {exp_fp} (pre-state {pre_fp})", arecs[0].len() + arecs[1].len()),
